@@ -12,6 +12,7 @@ import (
 	"verifsim/evid"
 
 	gonnx "github.com/advancedclimatesystems/gonnx"
+	"github.com/advancedclimatesystems/gonnx/onnx"
 
 	"verifsim/rng"
 )
@@ -47,13 +48,14 @@ func raceRunJ(jf *os.File, seed uint64, start, n, step int64, repo string, stop 
 		c := drawWorld17(r, lib)
 		var models []*gonnx.Model
 		okLoad := true
+		shared := map[uint64]*onnx.ModelProto{}
 		for mi := range c.World.Models {
-			m, err := gonnx.NewModelFromBytes(c.World.Models[mi].Bytes)
-			if err != nil {
+			lm := loadLive(&c.World.Models[mi], shared)
+			if lm.m == nil {
 				okLoad = false
 				break
 			}
-			models = append(models, m)
+			models = append(models, lm.m)
 		}
 		if !okLoad {
 			continue
